@@ -62,13 +62,16 @@ Section Process.
   Variables a p : cid.
   Variable k : nat.
   Variable s' : ppc_t.
+  Variable ph' : aqphase.
   Hypothesis A : invA P c.
+  Hypothesis Hqi : forall n, qidx ph' n = S k.
+  Hypothesis Hpc : pclass ph' = 1.
   Hypothesis Hph0 : aq_ph c a = ADraining k.
   Hypothesis Hnth : nth_error (aq_q c a) k = Some p.
   Hypothesis Hto : movable s'.
   Hypothesis Hppc : ppc c' = upd (ppc c) p s'.
   Hypothesis Hq : aq_q c' = aq_q c.
-  Hypothesis Hph : aq_ph c' = upd (aq_ph c) a (ADraining (S k)).
+  Hypothesis Hph : forall y, aq_ph c' y = upd (aq_ph c) a ph' y.
   Hypothesis Hpenq : penq c' = penq c.
   Hypothesis Hproot : proot c' = proot c.
   Hypothesis Hpbasis : pbasis c' = pbasis c.
@@ -97,23 +100,23 @@ Section Process.
       destruct (a_q3 _ _ A _ _ _ H) as (E1 & E2). destruct (a_q3 _ _ A _ _ _ Hnth) as (E3 & E4).
       pose proof (a_q1 _ _ A _ _ _ H) as Q.
       destruct (Nat.eqb_spec a0 a) as [->|Na].
-      + simpl. rewrite Hph0 in Q. simpl in Q.
+      + rewrite Hqi. rewrite Hph0 in Q. simpl in Q.
         destruct (Nat.eqb_spec p0 p) as [->|Np].
         * assert (i = k) by congruence. split; intros; [congruence|lia].
         * assert (i <> k) by (intros ->; congruence). rewrite Q. lia.
       + destruct (Nat.eqb_spec p0 p) as [->|Np]; [congruence|]. exact Q.
-    - pose proof (a_q1b _ _ A a0). destruct (Nat.eqb_spec a0 a) as [->|Na]; auto.
+    - pose proof (a_q1b _ _ A a0). destruct (Nat.eqb_spec a0 a) as [->|Na]; auto. rewrite Hqi. exact Hlt.
     - eauto using (a_q2 _ _ A).
     - eqb_cases; try congruence. apply (a_q2' _ _ A); auto.
     - eauto using (a_q3 _ _ A).
     - eqb_cases; try congruence. apply (a_q4 _ _ A); auto.
-    - pose proof (a_q5 _ _ A a0) as Q. destruct (Nat.eqb_spec a0 a) as [->|Na]; auto. rewrite Hph0 in Q. exact Q.
+    - pose proof (a_q5 _ _ A a0) as Q. destruct (Nat.eqb_spec a0 a) as [->|Na]; auto. rewrite Hph0 in Q. rewrite Hpc. exact Q.
     - eauto using (a_q8 _ _ A).
     - apply (a_q9 _ _ A). eqb_cases; auto. rewrite Hpq. discriminate.
     - destruct (Nat.eqb_spec p0 p) as [->|Np]; auto. rewrite Hcomp by auto. apply (a_j3 _ _ A); auto.
     - apply (a_t1 _ _ A).
     - pose proof (a_t2 _ _ A a0) as Q. destruct (Nat.eqb_spec a a0) as [<-|Na].
-      + rewrite Nat.eqb_refl. simpl. rewrite Hph0 in Q. simpl in Q. rewrite Q.
+      + rewrite Nat.eqb_refl. rewrite Hqi. rewrite Hph0 in Q. simpl in Q. rewrite Q.
         symmetry. apply firstn_snoc_nth. auto.
       + destruct (Nat.eqb_spec a0 a); [congruence|]. exact Q.
   Qed.
@@ -274,3 +277,45 @@ Section Phase.
     - destruct (Nat.eqb_spec a0 a) as [->|Na]; [rewrite Hidx|]; apply (a_t2 _ _ A).
   Qed.
 End Phase.
+
+(* only the phase of a changes, to one with the same drain index and class (the target the drain
+   loop is blocked in acknowledges delivery) *)
+Section Rephase.
+  Variable P : params.
+  Variables c c' : config.
+  Variable a : cid.
+  Variable ph' : aqphase.
+  Hypothesis A : invA P c.
+  Hypothesis Hph : aq_ph c' = upd (aq_ph c) a ph'.
+  Hypothesis Hcl : pclass ph' = pclass (aq_ph c a).
+  Hypothesis Hidx : qidx ph' (length (aq_q c a)) = qidx (aq_ph c a) (length (aq_q c a)).
+  Hypothesis Hipc : ipc c' = ipc c.
+  Hypothesis Hppc : ppc c' = ppc c.
+  Hypothesis Hq : aq_q c' = aq_q c.
+  Hypothesis Hpenq : penq c' = penq c.
+  Hypothesis Hproot : proot c' = proot c.
+  Hypothesis Hpbasis : pbasis c' = pbasis c.
+  Hypothesis Hspc : spc c' = spc c.
+  Hypothesis Hcomp : compl c' = compl c.
+  Hypothesis Htrace : trace c' = trace c.
+
+  Lemma invA_rephase : invA P c'.
+  Proof.
+    constructor; intros; rewrite ?Hppc, ?Hq, ?Hph, ?Hpenq, ?Hproot, ?Hpbasis, ?Hipc, ?Hspc, ?Hcomp, ?Htrace in *;
+      unfold upd in *.
+    - apply (a_kp _ _ A); auto.
+    - apply (a_ks _ _ A); auto.
+    - destruct (Nat.eqb_spec a0 a) as [->|Na]; [rewrite Hidx|]; apply (a_q1 _ _ A); auto.
+    - destruct (Nat.eqb_spec a0 a) as [->|Na]; [rewrite Hidx|]; apply (a_q1b _ _ A); auto.
+    - apply (a_q2 _ _ A); auto.
+    - apply (a_q2' _ _ A); auto.
+    - apply (a_q3 _ _ A); auto.
+    - apply (a_q4 _ _ A); auto.
+    - destruct (Nat.eqb_spec a0 a) as [->|Na]; [rewrite Hcl|]; apply (a_q5 _ _ A).
+    - eapply (a_q8 _ _ A); eauto.
+    - apply (a_q9 _ _ A); auto.
+    - apply (a_j3 _ _ A); auto.
+    - apply (a_t1 _ _ A).
+    - destruct (Nat.eqb_spec a0 a) as [->|Na]; [rewrite Hidx|]; apply (a_t2 _ _ A).
+  Qed.
+End Rephase.
